@@ -582,7 +582,7 @@ impl Property for C14 {
 		64
 	}
 	fn cases(&self, tier: Tier) -> u64 {
-		tier.pick(24_000, 500_000)
+		tier.pick(72_000, 500_000)
 	}
 
 	fn run(&self, tape: &[u32], ctx: &mut Ctx) -> CaseResult {
